@@ -2012,3 +2012,20 @@ M("c04-step-config-copied-whole-twin", "C04", "R5.callers-config-reaches-the-exe
 M("c04-executor-gets-a-fresh-config", "C04", "R5.executor-is-handed-the-callers-config", "context.py",
   "            config=config,\n            state=self.state,\n            operation_identifier=OperationIdentifier(\n                operation_id=operation_id,\n                parent_id=self._parent_id,\n                name=step_name,",
   "            config=StepConfig(retry_strategy=config.retry_strategy),\n            state=self.state,\n            operation_identifier=OperationIdentifier(\n                operation_id=operation_id,\n                parent_id=self._parent_id,\n                name=step_name,")
+
+
+def _failure_drain_guard_true(src):
+    i = src.index("                    while not self._overflow_queue.empty():")
+    j = src.index("                            if item.completion_event:", i)
+    return src[:j] + "                            if True:" + src[j + len("                            if item.completion_event:"):]
+
+
+def _stop_drain_guard_true(src):
+    i = src.index("            for pending in (self._overflow_queue, self._checkpoint_queue):")
+    j = src.index("                        if item.completion_event:", i)
+    return src[:j] + "                        if True:" + src[j + len("                        if item.completion_event:"):]
+
+
+M2("c06-failure-drain-wakes-a-missing-event", "C06", "R1", [{"file": "state.py", "fn": _failure_drain_guard_true}],
+   desc="mutscan 4: a fire-and-forget update in the overflow queue has no completion event; None.set() ends the failure handler half-way through")
+M2("c05-stop-drain-wakes-a-missing-event", "C05", "R6", [{"file": "state.py", "fn": _stop_drain_guard_true}])
